@@ -426,7 +426,7 @@ func checkText(text []byte, label string, corr bool) {
 	}
 }
 
-// classifyReparse recognises the known shapes of fixpoint failures
+// classifyReparse recognises the shapes of the two repaired fixpoint defects (4d3e573, c186975), should they return
 func classifyReparse(d1, d2 *description.Session, field string) string {
 	if field == "format-fmtp" && len(d1.Medias) == len(d2.Medias) {
 		for i := range d1.Medias {
@@ -629,10 +629,10 @@ var corpusTexts = []struct{ name, text string }{
 	// mediacommon mpeg4video.IsValidConfig indexes config[pos+3] one past the end when the configuration
 	// ends with a start-code prefix 00 00 01: MPEG4Video.unmarshal panics (client DESCRIBE / server ANNOUNCE)
 	{"mpeg4video-config-ends-with-startcode-prefix", "v=0\r\ns= \r\nt=0 0\r\nm=video 0 RTP/AVP 96\r\na=rtpmap:96 MP4V-ES/90000\r\na=fmtp:96 config=000001B001000001\r\n"},
-	// Generic format: a value ending in a tab is kept while it is followed by another pair, but the
-	// re-marshalled attribute sorts the keys, the pair becomes the last one and TrimSpace drops the tab
+	// REGRESSION (fixed by 4d3e573): Generic format, a value ending in a tab was kept while followed by another
+	// pair, but the re-marshalled attribute sorts the keys, the pair became the last one and TrimSpace dropped the tab
 	{"generic-fmtp-trailing-tab", "v=0\r\ns= \r\nt=0 0\r\nm=application 0 RTP/AVP 98\r\na=rtpmap:98 custom/90000\r\na=fmtp:98 z=y\t; b=x\r\n"},
-	// H264: a parameter set that still starts with 00 00 00 01 after one TrimPrefix is trimmed again on re-parse
+	// REGRESSION (fixed by c186975): a parameter set that still started with 00 00 00 01 after one TrimPrefix was trimmed again on re-parse
 	{"h264-pps-double-startcode", "v=0\r\ns= \r\nt=0 0\r\nm=video 0 RTP/AVP 96\r\na=rtpmap:96 H264/90000\r\na=fmtp:96 sprop-parameter-sets=AAAAAWdNAB6NjUBaHtCAAAOEAACvyAI=,AAAAAQAAAAFo7jiA\r\n"},
 	{"h265-vps-double-startcode", "v=0\r\ns= \r\nt=0 0\r\nm=video 0 RTP/AVP 96\r\na=rtpmap:96 H265/90000\r\na=fmtp:96 sprop-vps=AAAAAQAAAAFAAQ==\r\n"},
 	{"upstream-like", "v=0\r\no=- 0 0 IN IP4 127.0.0.1\r\ns=Stream\r\nc=IN IP4 0.0.0.0\r\nt=0 0\r\na=control:*\r\nm=video 0 RTP/AVP 96\r\na=rtpmap:96 H264/90000\r\na=fmtp:96 packetization-mode=1; sprop-parameter-sets=Z2QADKw7ULBLQgAAAwACAAADAD0I,aO48gA==; profile-level-id=64000C\r\na=control:trackID=0\r\nm=audio 0 RTP/AVP 97\r\na=rtpmap:97 mpeg4-generic/48000/2\r\na=fmtp:97 profile-level-id=1; mode=AAC-hbr; sizelength=13; indexlength=3; indexdeltalength=3; config=1190\r\na=control:trackID=1\r\n"},
